@@ -26,6 +26,7 @@ Names == {"a", "b", "", NONE}
 Scalars == { V("int", n, WOf(5), r, NONE, <<>>, NONE) : n \in Names, r \in {0, 1} }
       \cup { V("str", n, "x", r, NONE, <<>>, NONE) : n \in Names, r \in {0, 1} }
       \cup { V("str", n, NONE, r, NONE, <<>>, NONE) : n \in Names, r \in {0, 1} }
+
       \cup { V("bool", n, 1, r, NONE, <<>>, NONE) : n \in Names, r \in {0, 1} }
 Jsons == { V("json", n, ObjText, r, "obj", ObjM, ObjText) : n \in Names, r \in {0, 1} }
     \cup { V("json", n, "[1,2]", r, "arr", <<>>, "[1,2]") : n \in Names, r \in {0, 1} }
@@ -43,6 +44,8 @@ FullAlphabet == {[k |-> "set", v |-> v] : v \in Scalars \cup Jsons}
 SmallAlphabet == {[k |-> "set", v |-> v] : v \in
                     { V("int", "a", WOf(5), 0, NONE, <<>>, NONE), V("int", "a", WOf(5), 1, NONE, <<>>, NONE),
                       V("str", "a", "x", 1, NONE, <<>>, NONE), V("str", "b", "x", 0, NONE, <<>>, NONE),
+                      V("str", "a", "", 1, NONE, <<>>, NONE), V("str", "b", "", 0, NONE, <<>>, NONE),     \* the empty string is a value
+                      V("str", "a", "#hex:fffe", 1, NONE, <<>>, NONE), V("str", "b", "#hex:c0af", 0, NONE, <<>>, NONE),   \* not UTF-8
                       V("bool", "b", 1, 0, NONE, <<>>, NONE), V("str", "", "x", 0, NONE, <<>>, NONE),
                       V("json", "b", ObjText, 0, "obj", ObjM, ObjText), V("json", NONE, ObjText, 0, "obj", ObjM, ObjText),
                       V("json", NONE, ObjText, 1, "obj", ObjM, ObjText), V("json", "a", "{\"a\":", 1, "malformed", <<>>, NONE) }}
@@ -76,8 +79,11 @@ View == Map
 LastOp == hist'[Len(hist')]
 Stepped == Len(hist') = Len(hist) + 1
 \* set without replace on an existing name, and every refused set, change nothing
+\* (the refusals the statement names: empty or absent name, malformed / non-container JSON text, existing name
+\* without replace - a string value that is not UTF-8 is the code's named deviation, see MSet)
 RefusedSetNoChange ==
-  [][ (Stepped /\ LastOp.k = "set" /\ MSet(Map, LastOp.v).err \in {"EXIST", "INVALID"}) => Map' = Map ]_mvars
+  [][ (Stepped /\ LastOp.k = "set" /\ MSet(Map, LastOp.v).err \in {"EXIST", "INVALID"}
+       /\ ~(LastOp.v.t = "str" /\ LastOp.v.val \in BadUtf8Vals)) => Map' = Map ]_mvars
 \* read-your-write: after a successful named scalar set, get returns it
 ReadYourWrite ==
   [][ (Stepped /\ LastOp.k = "set" /\ LastOp.v.t \in {"int", "str", "bool"} /\ MSet(Map, LastOp.v).err = "NONE")
